@@ -219,7 +219,6 @@ theorem step_inv (s : St) (op : Op) (h : Inv s) : Inv (step s op).1 := by
     split; · exact h
     split; · exact h
     split; · exact h
-    split; · exact h
     exact create_tail_inv h id _
   | newAddr id n pw =>
     simp only [step]
